@@ -181,8 +181,9 @@ func stack(s *Snip, inSprintf bool, st *stackInfo) (string, bool) {
 		return "(QDirective " + core.Hex(string(s.S)) + " " + core.CoqList(items) + ")", true
 	case "snippets":
 		var items []string
-		for i := range s.L {
-			x, ok := stack(&s.L[i], false, st)
+		parts := modelParts(s)
+		for i := range parts {
+			x, ok := stack(&parts[i], false, st)
 			if !ok {
 				return "", false
 			}
